@@ -113,6 +113,10 @@ def build_tree(c, rnd):
                 a["SequenceNumber"] = str(d["seq"])
             dk.append(["Device", a, []])
         kids.append(["Devices", {}, dk])
+    if rnd.random() < 0.4:          # the sections of the document in another order than ETS writes them: the content is the same
+        secs = [[k for k in kids if k[0] == t] for t in ("Backbone", "Interface", "GroupAddresses", "Devices")]
+        rnd.shuffle(secs)
+        kids = [k for sec in secs for k in sec]
     return ["Keyring", {"Project": c["project"], "CreatedBy": "verif writer", "Created": c["created"]}, kids]
 
 
